@@ -60,11 +60,13 @@ void BEGINStatement::docatch(const RuntimeError& rt, Context& ctx) const
         try
         {
           /* save catched error in the context */
+          RuntimeError enclosing(ctx.error());
           ctx.error(rt);
           /* it should run with the given context */
           c.second->run(ctx, c.second->statements());
-          /* clear error in the context */
-          ctx.error(RuntimeError());
+          /* the handler is done: a handler this block is part of sees its
+           * own error again (none at the outermost level) */
+          ctx.error(enclosing);
         }
         catch (RuntimeError& rte)
         {
